@@ -225,9 +225,26 @@ class Lane(LaneBase):
 
         budget = [40]
 
+        nxhead = None
+        try:
+            nxg = g.to_networkx()
+            nxhead = f'{hxlist([str(x) for x in nxg.nodes])} {hxedges([(str(a), str(b)) for a, b in nxg.edges])}'
+        except Exception:  # noqa: BLE001
+            pass
+        extra = self._nx_extra = []
+
         def q(fn, args, suffix, thunk, canon):
             try:
                 raw0 = thunk()
+                if nxhead is not None and fn in ('anc', 'desc', 'paths') and len(extra) < 60 and \
+                        all(a != UNKNOWN for a in args):
+                    # what the CODE returned against the transcriptions of networkx.ancestors / descendants (as sets)
+                    # and all_simple_paths (ORDER included; it follows the exported digraph's successor order)
+                    if fn == 'paths' and args[0] != args[1]:
+                        extra.append((f'nxreach paths {nxhead} {hx(args[0])} {hx(args[1])}',
+                                      hxlistlist([list(p) for p in raw0])))
+                    elif fn != 'paths':
+                        extra.append((f'nxreach {fn} {nxhead} {hx(args[0])}', hxlist(sorted(raw0))))
                 reply, raw = canon(raw0)
                 if isinstance(raw0, (list, set)) and raw0 and budget[0] > 0:
                     # the caller changes the container it was given in place; the same query must answer as before
@@ -383,10 +400,21 @@ class Lane(LaneBase):
                 o.clear()
         except Exception:  # noqa: BLE001
             pass
+        # the exported digraph's own node / successor order: what fixes the ORDER of the third-party routines' answers
+        nxhead = None
+        try:
+            nxg = g.to_networkx()
+            nxhead = f'{hxlist([str(x) for x in nxg.nodes])} {hxedges([(str(a), str(b)) for a, b in nxg.edges])}'
+        except Exception:  # noqa: BLE001
+            pass
         try:
             order = g.get_topological_order()
             lines.append(f'topo valid {head} {hxlist(order)}')
             impl.append('1')
+            if nxhead is not None:
+                # what the CODE returned, order included, against the transcription of networkx.topological_sort
+                lines.append(f'nxtopo sort {nxhead}')
+                impl.append(hxlist(order))
         except Exception as e:
             lines.append(f'topo valid {head} {hxlist([])}')
             impl.append(_err(e))
@@ -394,6 +422,10 @@ class Lane(LaneBase):
             allo = g.get_topological_order(return_all=True)
             lines.append(f'topo all {head}')
             impl.append(hxlistlist(sorted(allo)))
+            if nxhead is not None and len(nodes) <= 6:
+                # ... and the list of all orders, in generation order, against networkx.all_topological_sorts transcribed
+                lines.append(f'nxtopo all {nxhead}')
+                impl.append(hxlistlist([list(o) for o in allo]))
             # oracle (brute force, no networkx): all and only the linear extensions, no duplicates
             if len(nodes) <= 6:
                 import itertools
@@ -507,6 +539,10 @@ class Lane(LaneBase):
         recs = self.answers(g, nodes, case)
         lines = [f'q10 {fn} {head} {sfx}' for fn, _a, sfx, _r, _raw in recs]
         impl = [reply for _fn, _a, _sfx, reply, _raw in recs]
+        if fam in ('dag', 'relab'):
+            for ln, exp in getattr(self, '_nx_extra', []):
+                lines.append(ln)
+                impl.append(exp)
         oracle = []
         if fam != 'cyc':
             oracle = self.oracle(g, recs, fam)
